@@ -71,3 +71,13 @@ LEVEL = ("bounded model checking (CBMC/SAT) of the real conversion kernels again
 ASSUMPTIONS = ["x86-64 little-endian host, IEEE-754 binary32/64 (CBMC's float model, round-to-nearest-even)",
                "ERANGE_FILL setting read from the repo's Makefile M4FLAGS; the rule of that mode is checked",
                "long double memory type and same-representation pairs (plain byte swap) are outside this harness"]
+
+MANIFEST = dict(
+    text="Bounded symbolic execution (CBMC, SAT back end) of the real conversion kernels ncmpii_putn/getn_NC_* -> ncmpix_* "
+         "(regenerated from ncx.m4/convert_swap.m4 on every run) for all 10 numeric external x 11 memory types in both directions: "
+         "every bit pattern of every element (nelems 2 quick / 3 thorough), symbolic fill value and format, compared against an "
+         "independent arithmetic model of the statement. The solver covers all 2^64 values per element, which no test table can.",
+    note="Holds for nelems <= bound; IEEE-754/x86-64; fill pointer non-NULL as every library caller passes; the statement's silent "
+         "zones (strictly between MAX and MAX+1, +-Inf, values rounding into float range) accept either outcome. Known findings "
+         "(NaN and exactly 2^63/2^64 into integer destinations) are excluded by assume and re-confirmed by the solver on every run. "
+         "Attribute entry points share the same ncmpix_* kernels (pad variants in thorough).")
